@@ -362,49 +362,35 @@ func c02r5(r *R) {
 	// final string: a_b_c
 	st := ja4m(r, "String")
 	o := r.Ob("C02.R5", "a_b_c:"+funcName(st)).At(st.Pos())
+	// The returned string, as a flat template per alternative (concatenation, Sprintf with %s, explicit String() and %s on
+	// a Stringer all read alike; hashing in both branches or once after choosing the input is the same).
+	partA := `chr(p0.Protocol) · str(p0.TLSVersion) · chr(p0.SNI) · str(p0.NumberOfCipherSuites) · str(p0.NumberOfExtensions) · p0.FirstALPN`
+	partB := `ja4.truncatedSha256(⟨str(p0.CipherSuites)⟩)`
+	noSig := partA + ` · "_" · ` + partB + ` · "_" · ja4.truncatedSha256(⟨str(p0.Extensions)⟩)`
+	withSig := partA + ` · "_" · ` + partB + ` · "_" · ja4.truncatedSha256(⟨str(p0.Extensions) · "_" · str(p0.SignatureAlgorithms)⟩)`
+	nNo, nWith := 0, 0
 	eachInstr(st, func(i ssa.Instruction) {
 		ret, ok := i.(*ssa.Return)
 		if !ok {
 			return
 		}
-		call, ok := ret.Results[0].(*ssa.Call)
-		if !o.Check(ok && calleeName(&call.Call) == "fmt.Sprintf", "String returns %s", c.Expr(ret.Results[0])) {
-			return
-		}
-		f, _ := constString(call.Call.Args[0])
-		o.AtI(i).Check(f == "%s_%s_%s", "final format is %q, want \"%%s_%%s_%%s\"", f)
-		els := variadicElems(call.Call.Args[1])
-		if o.Check(len(els) == 3, "final format has %d operands", len(els)) {
-			a, b, cc := c.Expr(els[0]), c.Expr(els[1]), c.Expr(els[2])
-			o.Check(strings.HasPrefix(a, `fmt.Sprintf("%s%s%s%s%s%s", `), "part a is %s", a)
-			o.Check(b == "ja4.truncatedSha256((ja4.cipherSuites).String(p0.CipherSuites))", "part b is %s, want the truncated hash of the cipher list", b)
-			// the hash of one of two strings: hashing in both branches or once after choosing the string is the same
-			o.Check(cc == `phi(ja4.truncatedSha256((ja4.extensions).String(p0.Extensions))|ja4.truncatedSha256(fmt.Sprintf("%s_%s", &varargs[:])))` ||
-				cc == `ja4.truncatedSha256(phi((ja4.extensions).String(p0.Extensions)|fmt.Sprintf("%s_%s", &varargs[:])))`, "part c is %s", cc)
-		}
-	})
-	// part a operands in order
-	eachInstr(st, func(i ssa.Instruction) {
-		call, ok := i.(*ssa.Call)
-		if !ok || calleeName(&call.Call) != "fmt.Sprintf" {
-			return
-		}
-		f, _ := constString(call.Call.Args[0])
-		els := variadicElems(call.Call.Args[1])
-		var es []string
-		for _, e := range els {
-			es = append(es, c.Expr(e))
-		}
-		switch f {
-		case "%s%s%s%s%s%s":
-			want := []string{"p0.Protocol", "p0.TLSVersion", "p0.SNI", "p0.NumberOfCipherSuites", "p0.NumberOfExtensions", "p0.FirstALPN"}
-			o.AtI(i).Check(strings.Join(es, ",") == strings.Join(want, ","), "part a operands are %v, want %v", es, want)
-		case "%s_%s":
-			o.AtI(i).Check(len(es) == 2 && es[0] == "p0.Extensions" && es[1] == "p0.SignatureAlgorithms", "extension/signature-algorithm join is %v", es)
-			gs := c.guardStrs(i.Block())
-			o.Check(hasGuard(gs, "-(0 == builtin.len(p0.SignatureAlgorithms))"), "the '_' join is used although there are no signature algorithms; guards %v", gs)
+		o.AtI(i)
+		for _, sa := range c.StrAlts(retValue(ret, 0), i.Block()) {
+			empty := hasGuard(sa.Guards, "+(0 == builtin.len(p0.SignatureAlgorithms))")
+			nonEmpty := hasGuard(sa.Guards, "-(0 == builtin.len(p0.SignatureAlgorithms))")
+			switch {
+			case empty && !nonEmpty:
+				nNo++
+				o.Check(sa.Tmpl == noSig, "without signature algorithms String returns %s, want %s", sa.Tmpl, noSig)
+			case nonEmpty && !empty:
+				nWith++
+				o.Check(sa.Tmpl == withSig, "with signature algorithms String returns %s, want %s", sa.Tmpl, withSig)
+			default:
+				o.Fail("String returns %s under %v: the choice between the two forms of part c is not decided by len(SignatureAlgorithms) == 0", sa.Tmpl, sa.Guards)
+			}
 		}
 	})
+	o.Check(nNo >= 1 && nWith >= 1, "String lacks one of the two forms of part c (without signature algorithms: %d, with: %d)", nNo, nWith)
 	// truncatedSha256
 	ts := c.Func("pkg/ja4", "truncatedSha256")
 	r.need(ts != nil, "truncatedSha256 not found")
